@@ -218,16 +218,16 @@ type CertInfo struct {
 }
 
 type BlockInfo struct {
-	Kind  string    `json:"kind"` // key cert other
-	Type  string    `json:"type"`
-	OK    bool      `json:"ok"`
-	Alg   string    `json:"alg,omitempty"` // RSA ECDSA foreign
-	Size  int       `json:"size,omitempty"`
-	Pub   int       `json:"pub,omitempty"`
-	Spki  string    `json:"spki,omitempty"`
-	Kid   string    `json:"kid,omitempty"`
-	Cert  *CertInfo `json:"cert,omitempty"`
-	pubK  crypto.PublicKey
+	Kind string    `json:"kind"` // key cert other
+	Type string    `json:"type"`
+	OK   bool      `json:"ok"`
+	Alg  string    `json:"alg,omitempty"` // RSA ECDSA foreign
+	Size int       `json:"size,omitempty"`
+	Pub  int       `json:"pub,omitempty"`
+	Spki string    `json:"spki,omitempty"`
+	Kid  string    `json:"kid,omitempty"`
+	Cert *CertInfo `json:"cert,omitempty"`
+	pubK crypto.PublicKey
 }
 
 type Analysis struct {
